@@ -136,7 +136,7 @@ orc_parse_full (const char *code, OrcProgram ***programs, char **log)
 {
   int n_programs = 0;
 
-  if (*log) {
+  if (log) {
     int n_errors = 0;
     OrcParseError **errors;
 
